@@ -4,6 +4,7 @@ plan, recomputed from scratch (`src/merkle/{ihr,amr}.rs`, `src/node/redeem.rs` `
 `src/analysis.rs` `NodeBounds`).
 -/
 import SimplicityModel.Prog.Merkle
+import Std.Data.HashMap
 
 namespace Prog
 open Sha2
@@ -24,6 +25,34 @@ def tmrF : BM4.Ty → Nat
     match isWord (.prod a b) with
     | some n => tmrWord n
     | none => update2 ivTyProd (tmrF a) (tmrF b)
+
+deriving instance Hashable for BM4.Ty
+
+/-- `tmrF` with a memo table (types of a program share most of their sub-terms) -/
+def tmrM : BM4.Ty → StateM (Std.HashMap BM4.Ty Nat) Nat
+  | .one => pure ivTyUnit
+  | .sum a b => do
+    match (← get)[BM4.Ty.sum a b]? with
+    | some v => pure v
+    | none =>
+      let x ← tmrM a
+      let y ← tmrM b
+      let v := update2 ivTySum x y
+      modify (·.insert (.sum a b) v)
+      pure v
+  | .prod a b => do
+    match (← get)[BM4.Ty.prod a b]? with
+    | some v => pure v
+    | none =>
+      let x ← tmrM a
+      let y ← tmrM b
+      let v := update2 ivTyProd x y
+      modify (·.insert (.prod a b) v)
+      pure v
+
+/-- memo table for all types (and sub-types) of a list of arrows -/
+def tmrCache (arrows : Array (BM4.Ty × BM4.Ty)) : Std.HashMap BM4.Ty Nat :=
+  (arrows.foldl (fun st a => ((tmrM a.1 *> tmrM a.2).run st).2) {})
 
 /-- bytes of a bit string, zero padded (fuel = number of bytes) -/
 def packBitsAux : Nat → List Bool → List Nat
@@ -56,15 +85,15 @@ def U32MAX : Nat := 4294967295
 def satAdd (a b : Nat) : Nat := min (a + b) U32MAX
 def OVERHEAD : Nat := 100
 
-def ihrOf (imr : Nat) (a : BM4.Ty × BM4.Ty) : Nat :=
+def ihrOf (tmrF : BM4.Ty → Nat) (imr : Nat) (a : BM4.Ty × BM4.Ty) : Nat :=
   update2 (update2 ivIdentity 0 imr) (tmrF a.1) (tmrF a.2)
 
 /-- annotations of node `i` from those of its children -/
-def annotNode (jetCmr : String → Option Nat) (jetCost : String → Option Nat)
+def annotNode (tmrF : BM4.Ty → Nat) (jetCmr : String → Option Nat) (jetCost : String → Option Nat)
     (arr : Nat → BM4.Ty × BM4.Ty) (wit : Nat → Option (List Bool)) (an : Nat → Annot)
     (i : Nat) (nd : Node) : Option Annot :=
   let (a, b) := arr i
-  let mk (imr amr cost : Nat) (u : Bool) : Annot := ⟨imr, ihrOf imr (a, b), amr, cost, u⟩
+  let mk (imr amr cost : Nat) (u : Bool) : Annot := ⟨imr, ihrOf tmrF imr (a, b), amr, cost, u⟩
   let up1 (iv x y : Nat) := update2 iv x y
   match nd with
   | .iden => some (mk ivIden (up1 (amrIV "iden") 0 (tmrF a)) (satAdd OVERHEAD a.bw) false)
@@ -130,12 +159,18 @@ def annotNode (jetCmr : String → Option Nat) (jetCost : String → Option Nat)
         (satAdd (satAdd (satAdd (satAdd (satAdd (satAdd OVERHEAD ls.bw) ls.bw) lt.bw) (lt.bw - c.bw)) l.cost) r.cost)
         true)
     | _ => none
-  | .disconnect _ none => none
-  | .witness => do
-    let bits ← wit i
-    let cv := compactValueHash bits
-    pure (mk (up1 (imrIV "witness") cv (tmrF b))
-      (up1 (up1 (amrIV "witness") 0 (tmrF a)) (tmrF b) cv) (satAdd OVERHEAD b.bw) true)
+  | .disconnect x none =>
+    -- commitment time: no identity root (never shared)
+    some ⟨0, 0, 0, (an x).cost, true⟩
+  | .witness =>
+    match wit i with
+    | some bits =>
+      let cv := compactValueHash bits
+      some (mk (up1 (imrIV "witness") cv (tmrF b))
+        (up1 (up1 (amrIV "witness") 0 (tmrF a)) (tmrF b) cv) (satAdd OVERHEAD b.bw) true)
+    | none =>
+      -- commitment time: no value, no identity root (never shared)
+      some ⟨0, 0, 0, satAdd OVERHEAD b.bw, true⟩
   | .fail e => let (l, r) := failBlock e
     some (mk (up1 ivFail l r) (up1 (amrIV "fail") l r) 0 false)
   | .word n bits => let c := cmrWord n bits
@@ -148,11 +183,13 @@ def annotNode (jetCmr : String → Option Nat) (jetCost : String → Option Nat)
 /-- annotations of all nodes (children before parents) -/
 def annots (jetCmr : String → Option Nat) (jetCost : String → Option Nat) (p : Plan)
     (arrows : Array (BM4.Ty × BM4.Ty)) (wit : Nat → Option (List Bool)) : Option (Array Annot) :=
+  let cache := tmrCache arrows
+  let tm (t : BM4.Ty) : Nat := match cache[t]? with | some v => v | none => tmrF t
   let rec go (i : Nat) (nodes : List Node) (acc : Array Annot) : Option (Array Annot) :=
     match nodes with
     | [] => some acc
     | nd :: rest => do
-      let a ← annotNode jetCmr jetCost (fun j => arrows.getD j (.one, .one)) wit (fun j => acc.getD j default) i nd
+      let a ← annotNode tm jetCmr jetCost (fun j => arrows.getD j (.one, .one)) wit (fun j => acc.getD j default) i nd
       go (i + 1) rest (acc.push a)
   go 0 p.toList #[]
 
